@@ -790,7 +790,7 @@ func init() {
 			if v, _ := c.Extra["race_log_parsed"].(bool); !v {
 				miss = append(miss, "race pass did not run")
 			}
-			for _, m := range []string{"high-s-battery-last", "slow-node-twin", "fixed-extremes", "fresh-process", "after-unrelated-histories", "restart-every-3", "restart-every-11", "concurrent", "race:concurrent-instances", "race:parallel-queries"} {
+			for _, m := range []string{"high-s-battery-last", "slow-node-twin", "context-twin/live", "context-twin/cancelled", "context-twin/deadline-passed", "fixed-extremes", "fresh-process", "after-unrelated-histories", "restart-every-3", "restart-every-11", "concurrent", "race:concurrent-instances", "race:parallel-queries"} {
 				if c.Matrix["C18_modes"][m] == 0 {
 					miss = append(miss, "mode not exercised: "+m)
 				}
